@@ -27,11 +27,12 @@ LeavesTiny  == {Eq("a", 1), Eq("b", 1), Pres("a"), LessT("b", 2), Sub("a", 1)}
 Leaves == CASE LeafSet = "tiny" -> LeavesTiny [] LeafSet = "small" -> LeavesSmall [] OTHER -> LeavesFull
 Comb(S) == {And(<<x>>) : x \in S} \cup {And(<<x, y>>) : x \in S, y \in S}
            \cup {Or(<<x>>) : x \in S} \cup {Or(<<x, y>>) : x \in S, y \in S} \cup {Not(x) : x \in S}
-D1 == Leaves \cup Comb(Leaves)
-D2 == Leaves \cup Comb(D1)
+\* (operators with a parameter: TLC evaluates zero-arity constant definitions eagerly, needed or not)
+D1(d) == Leaves \cup Comb(Leaves)
+D2(d) == Leaves \cup Comb(D1(d))
 \* depth 3 is sampled: combinations of SampleK randomly drawn depth-2 filters (TLC -seed)
-D3s == Comb(RandomSubset(SampleK, D2))
-Filters == CASE Depth = 1 -> D1 [] Depth = 2 -> D2 [] OTHER -> D3s
+D3s(d) == Comb(RandomSubset(SampleK, D2(d)))
+Filters(d) == CASE d = 1 -> D1(d) [] d = 2 -> D2(d) [] OTHER -> D3s(d)
 
 \* Filter::new_ignore_hidden: class values 91 = recycled, 92 = tombstone
 Hidden == Not(Or(<<Eq("class", 92), Eq("class", 91)>>))
@@ -59,7 +60,7 @@ DBs == CASE DbSet = "full16" -> {Full16}
          [] DbSet = "le2"    -> {[i \in {1} |-> EntryOf(s)] : s \in Shapes} \cup {<<>>}
                                 \cup {[i \in {1, 2} |-> EntryOf(ShapeSeq[p[i]])] : p \in {q \in (1..16) \X (1..16) : q[1] <= q[2]}}
 
-Init == f \in Filters /\ w \in Wraps /\ lay \in LayoutIds /\ db \in DBs
+Init == f \in Filters(Depth) /\ w \in Wraps /\ lay \in LayoutIds /\ db \in DBs
 Next == UNCHANGED <<f, w, lay, db>>
 
 \* ---- derived (one invariant, LET-cached so every piece is evaluated once per state)
